@@ -302,42 +302,66 @@ theorem encode_length (L : Layout) (rs : List Bytes) : (encode L rs).length = fi
   simp only [tellOf, List.take_length]
   cases h : L.tif <;> simp [eofMarkers, tifMarker, h, u32le, u32be]
 
-theorem stripTif_encode (L : Layout) (hL : L.Valid) (hle : L.tif = .le) (rs : List Bytes)
-    (hne : rs ≠ []) (hr : ∀ r ∈ rs, r ≠ []) (hsz : fileSize L rs < 4294967296) :
-    stripTif (encode L rs) = .ok (encode L.noTif rs, numPRs L rs + 2, (encode L.noTif rs).length) := by
+theorem eofN_chain (L : Layout) (hle : L.tif = .le) (st : ES) (k : Nat) (hk : k ≤ 2) :
+    eofMarkersN L st k = tifChain st.pos st.back (List.replicate k (1, [])) := by
+  have : k = 0 ∨ k = 1 ∨ k = 2 := by omega
+  rcases this with h | h | h <;> subst h
+  · rfl
+  · simp [eofMarkersN, tifMarker, hle, tifChain]
+  · exact eof_chain L hle st
+
+theorem encodeN_chain (L : Layout) (hle : L.tif = .le) (rs : List Bytes) (k : Nat) (hk : k ≤ 2) :
+    encodeN L rs k = tifChain 0 0 (recBlocks L 0 rs ++ List.replicate k (1, [])) := by
+  have := encRecs_chain L hle rs ES.init (List.replicate k (1, []))
+  simp only [ES.init] at this
+  unfold encodeN
+  rw [eofN_chain L hle _ k hk]
+  exact this.symm
+
+/-- stripping a TIF-marked file that ends with `k ≤ 2` end-of-file markers (0 = not yet closed) -/
+theorem stripTif_encodeN (L : Layout) (hL : L.Valid) (hle : L.tif = .le) (rs : List Bytes) (k : Nat) (hk : k ≤ 2)
+    (hne : rs ≠ []) (hr : ∀ r ∈ rs, r ≠ []) (hsz : (encodeN L rs k).length < 4294967296) :
+    stripTif (encodeN L rs k) = .ok (encode L.noTif rs, numPRs L rs + k, (encode L.noTif rs).length) := by
   have hmp : 1 ≤ L.maxPayload := by
     have := hL.2; unfold Layout.maxPayload; omega
-  rw [encode_chain L hle]
+  have hlen : (tifChain 0 0 (recBlocks L 0 rs ++ List.replicate k (1, []))).length < 4294967296 := by
+    rw [← encodeN_chain L hle rs k hk]; exact hsz
+  rw [encodeN_chain L hle rs k hk]
   -- the first block exists
   obtain ⟨r, rs', hrs⟩ := List.exists_cons_of_ne_nil hne
   have hrne : r ≠ [] := hr r (by rw [hrs]; simp)
   have hcs : chunks L.maxPayload r ≠ [] := fun h => hrne ((chunks_eq_nil _ hmp r).mp h)
   obtain ⟨c, cs, hc⟩ := List.exists_cons_of_ne_nil hcs
-  have hbl : ∃ b0 rest, recBlocks L 0 rs ++ [(1, []), (1, [])] = (0, b0) :: rest
+  have hbl : ∃ b0 rest, recBlocks L 0 rs ++ List.replicate k (1, []) = (0, b0) :: rest
       ∧ (∀ x ∈ rest, x.1 < 4294967296) := by
     subst hrs
-    have hX : recBlocks L 0 (r :: rs') ++ [(1, []), (1, [])]
+    have hX : recBlocks L 0 (r :: rs') ++ List.replicate k (1, [])
         = (0, prBody L ⟨0, 0, 0⟩ true cs.isEmpty c)
-          :: (chunkBlocks L (0 + 1) false cs ++ (recBlocks L (0 + (c :: cs).length) rs' ++ [(1, []), (1, [])])) := by
+          :: (chunkBlocks L (0 + 1) false cs ++ (recBlocks L (0 + (c :: cs).length) rs' ++ List.replicate k (1, []))) := by
       simp only [recBlocks, hc, chunkBlocks, List.cons_append, List.append_assoc]
     refine ⟨_, _, hX, ?_⟩
     intro x hx
-    have hall : ∀ y ∈ recBlocks L 0 (r :: rs') ++ [(1, []), (1, [])], y.1 < 4294967296 := by
+    have hall : ∀ y ∈ recBlocks L 0 (r :: rs') ++ List.replicate k (1, []), y.1 < 4294967296 := by
       intro y hy
       rcases List.mem_append.mp hy with h | h
       · rw [recBlocks_type L _ _ y h]; omega
-      · simp only [List.mem_cons, List.mem_nil_iff, or_false] at h
-        rcases h with h | h <;> (rw [h]; decide)
+      · rw [(List.mem_replicate.mp h).2]; decide
     apply hall
     rw [hX]
     exact List.mem_cons_of_mem _ hx
   obtain ⟨b0, rest, hbl, hty⟩ := hbl
-  have hlen : (tifChain 0 0 (recBlocks L 0 rs ++ [(1, []), (1, [])])).length < 4294967296 := by
-    rw [← encode_chain L hle, encode_length]; exact hsz
   rw [stripTif_chain _ b0 rest hbl hty hlen]
   rw [encode_noTif]
-  simp only [List.map_append, List.flatten_append, List.length_append, recBlocks_length, List.sum_append]
+  simp only [List.map_append, List.flatten_append, List.length_append, recBlocks_length, List.sum_append,
+    List.length_replicate]
   simp
   rfl
+
+theorem stripTif_encode (L : Layout) (hL : L.Valid) (hle : L.tif = .le) (rs : List Bytes)
+    (hne : rs ≠ []) (hr : ∀ r ∈ rs, r ≠ []) (hsz : fileSize L rs < 4294967296) :
+    stripTif (encode L rs) = .ok (encode L.noTif rs, numPRs L rs + 2, (encode L.noTif rs).length) := by
+  have h2 : encode L rs = encodeN L rs 2 := rfl
+  rw [h2]
+  exact stripTif_encodeN L hL hle rs 2 (Nat.le_refl _) hne hr (by rw [← h2, encode_length]; exact hsz)
 
 end TD.C05
